@@ -213,6 +213,13 @@ pub struct SearchAudit {
     /// ... of which the mover's own king was left attacked (an illegal move was searched)
     pub illegal_moves: u64,
     pub first_illegal: Option<String>,
+    /// moves that were also looked up in the legal move list of the position they were made in
+    /// (every castling, en passant, double step and promotion, and one in eight of the others)
+    pub membership_checked: u64,
+    /// ... of which that list does not contain the move (the search made a move that the move
+    /// generator does not offer in that position)
+    pub not_generated: u64,
+    pub first_not_generated: Option<String>,
     /// nodes handed to the capture search by the full-width search
     pub horizons: u64,
     /// ... of which the side to move was in check (the check extension did not happen)
@@ -221,6 +228,7 @@ pub struct SearchAudit {
 }
 
 static AUDIT_ON: AtomicBool = AtomicBool::new(false);
+static AUDIT_SAMPLE: AtomicU64 = AtomicU64::new(0);
 static AUDIT: Mutex<Option<SearchAudit>> = Mutex::new(None);
 
 #[allow(dead_code)]
@@ -246,8 +254,36 @@ pub fn audit_move(board: &crate::board::Board, mv: &crate::board::Ply) {
     }
     let mover = board.current_turn.opposite();
     let illegal = board.is_in_check(mover);
+    let special =
+        mv.is_castles || mv.en_passant || mv.is_double_pawn_push || mv.promoted_to.is_some();
+    let sampled = special || AUDIT_SAMPLE.fetch_add(1, Ordering::Relaxed) % 8 == 0;
+    // the position before the move, on a copy, and what the generator offers there
+    let generated = sampled && {
+        let mut before = board.clone();
+        before.unmake_move();
+        before.get_legal_moves().iter().any(|g| {
+            g.start == mv.start
+                && g.dest == mv.dest
+                && g.piece == mv.piece
+                && g.captured_piece == mv.captured_piece
+                && g.promoted_to == mv.promoted_to
+                && g.is_castles == mv.is_castles
+                && g.en_passant == mv.en_passant
+                && g.is_double_pawn_push == mv.is_double_pawn_push
+        })
+    };
     let mut guard = AUDIT.lock().unwrap_or_else(std::sync::PoisonError::into_inner);
     if let Some(a) = guard.as_mut() {
+        if sampled {
+            a.membership_checked += 1;
+            if !generated {
+                a.not_generated += 1;
+                if a.first_not_generated.is_none() {
+                    a.first_not_generated =
+                        Some(format!("{mv} (position after it, key {}):\n{board}", board.zkey));
+                }
+            }
+        }
         a.moves += 1;
         if illegal {
             a.illegal_moves += 1;
